@@ -172,6 +172,14 @@ def mc_property(v, tier, seed, name, prof, fields=mc_suite.ALL_FIELDS, noids=Fal
                     if dx and dy and int(dx.group(1)) > int(dy.group(1)):
                         return (f"run {k}: BFS reports `{x['hdr'].split()[2]}` at depth {dx.group(1)}, but a state at depth {dy.group(1)} "
                                 f"already fails: {y['T'][0][:400]}")
+        # (e) a staged run shares one visited cache across its start states
+        runs_e = mc_suite.split_runs(impl_out)
+        rl = [l for l in lines if l.startswith(("run ", "runfrom "))]
+        for k, r in enumerate(runs_e):
+            if k > 0 and k < len(rl) and rl[k].startswith("runfrom") and " disabled " not in rl[k] + " " and "result=ok" in r["hdr"]:
+                b = mc_suite.shared_cache_bound(r, len(runs_e[k - 1]["C"]))
+                if b:
+                    return f"run {k}: {b}"
         # (d) a pending timer carries the delay its process asked for: every T(p,name,d) in an evaluated state has a `T:name:d` or
         #     `O:name:d` action in a rule of p (pure model-checking scenarios: no snapshot timers with remaining times here)
         asked = set()
